@@ -4,7 +4,7 @@ import datetime as dt
 from hypothesis import strategies as st
 
 from gens import dt as G
-from lib.engine import R, V, enum_part, hyp_part
+from lib.engine import R, V, enum_part, hyp_part, concurrent_part
 
 ID = 'C06'
 RULE = ('dates 1900-01-01..2099-12-31 (Hypothesis, biased to month ends, leap days incl. 2000-02-29, day<=12 vs >12) x every layout of the culture '
@@ -12,7 +12,8 @@ RULE = ('dates 1900-01-01..2099-12-31 (Hypothesis, biased to month ends, leap da
         'datetimes 1950-2090 (the second one in 4 of 7 cases related to the written date: same year, same day, day after, Dec 31 of that year) x carrier; '
         'day written as an ordinal word/sign (en fourteenth of March 2019, pt/es 1º de ..., it 1°, fr 1er/premier, nl 14e, de zweiten) x every month x references '
         'in another year / the same year / on the same day (enumerated); thorough adds every day of 8 years x every English layout; non-trivial = day <= 12 and day != month '
-        '(a swap would show), or a leap day, or a month end; distinct = (culture, query)')
+        '(a swap would show), or a leap day, or a month end; distinct = (culture, query); concurrent part: the same generated cases evaluated 2-4 at a time on simultaneous threads (switch interval 10 us), '
+        'cases that are clean alone must stay clean')
 ASSUMPTIONS = ['month names and layouts are typed into the harness; carriers are static sentences']
 
 
@@ -146,6 +147,8 @@ def parts(tier, seed):
                         exhaustive=True))
     ps.append(enum_part('special-dates-other', special_dates(G.DT_CULTURES[1:], [2000, 2019, 2096] if q else [1900, 1999, 2000, 2016, 2019, 2020, 2096, 2099]),
                         run_case, exhaustive=True))
+    ps.append(concurrent_part('concurrent-mixed-cultures', lambda: st.one_of([cases(c) for c in ('en-us', 'es-es', 'fr-fr', 'nl-nl', 'zh-cn')]), run_case,
+                              200 if q else 4000, min_shard=40))
     ps.append(enum_part('ordinal-day-forms', ordinal_day_forms([2019, 2000] if q else [1950, 1999, 2000, 2016, 2019, 2020, 2024, 2090]), run_case,
                         exhaustive=True))
     if not q:
